@@ -119,8 +119,39 @@ let parse_keys spec =
 let show_q (q : Reader.question) =
   Printf.sprintf "%s/%d/%d" (hex q.Reader.q_name.NameWire.n_wire) (n q.Reader.q_type) (n q.Reader.q_class)
 
+(* ---- the spec-level oracle columns (Spec/MsgWalkS.v, extracted): independent of the server model ---- *)
+let show_problem = function
+  | MsgWalkS.QuestionUnparseable -> "QuestionUnparseable"
+  | MsgWalkS.RecordUndelimitable i -> Printf.sprintf "RecordUndelimitable:%d" (int_of_nat i)
+  | MsgWalkS.PseudoOutsideAdditional i -> Printf.sprintf "PseudoOutsideAdditional:%d" (int_of_nat i)
+  | MsgWalkS.SecondOpt i -> Printf.sprintf "SecondOpt:%d" (int_of_nat i)
+  | MsgWalkS.OptMalformed i -> Printf.sprintf "OptMalformed:%d" (int_of_nat i)
+  | MsgWalkS.TsigNotLast i -> Printf.sprintf "TsigNotLast:%d" (int_of_nat i)
+  | MsgWalkS.TsigMalformed i -> Printf.sprintf "TsigMalformed:%d" (int_of_nat i)
+  | MsgWalkS.QueryWithoutQuestion -> "QueryWithoutQuestion"
+  | MsgWalkS.TrailingOctets -> "TrailingOctets"
+let show_verdict = function
+  | MsgWalkS.VSilent -> "silent"
+  | MsgWalkS.VFormerr p -> "formerr:" ^ show_problem p
+  | MsgWalkS.VBadVers i -> Printf.sprintf "badvers:%d" (int_of_nat i)
+  | MsgWalkS.VTsig (i, t) -> Printf.sprintf "tsig:%d:%s" (int_of_nat i) (match t with None -> "none" | Some p -> show_problem p)
+  | MsgWalkS.VClean -> "clean"
+let rec drop k l = if k <= 0 then l else match l with [] -> [] | _ :: r -> drop (k - 1) r
+(* the request's question octets when the QNAME is uncompressed (qname_uncompressed) and QTYPE/QCLASS are present *)
+let question_octets req =
+  match MsgWalkS.s_first_name req (nat_of_int 12) with
+  | Some (e, false) ->
+    let e = int_of_nat e in
+    if e + 4 <= Stdlib.List.length req then hex (take (e + 4 - 12) (drop 12 req)) else "-"
+  | _ -> "-"
+let spec_columns req =
+  Printf.sprintf " fp=%s sopt=%d qoct=%s" (show_verdict (MsgWalkS.first_problem req))
+    (if MsgWalkS.s_opt_reached req then 1 else 0) (question_octets req)
+
 let () = run_lines (fun f ->
-  let dup s = s ^ " | " ^ s in      (* the model line doubles as the property oracle (see Props/C0x.v) *)
+  (* the model line doubles as the property oracle (see Props/C0x.v); the oracle column also carries the verdicts of the
+     extracted spec-level classifier, which Props/C08.v / C09.v / C03.v prove the model obeys *)
+  let dup s = s ^ " | " ^ s ^ (match f with [_; _; _; _; req] -> spec_columns (unhex req) | _ -> "") in
   dup (match f with
   | [tr; edns; cat; keys; req] ->
     let answered = ref false and verified = ref false and reached = ref None in
